@@ -719,12 +719,20 @@ func main() {
 	if trans < 1 {
 		trans = 1
 	}
+	// explorations report their executions (schedules / map orders / draw sequences) as states
+	explored := total.Evals
+	for _, k := range []string{"executions", "draw-sequences"} {
+		if total.Notes[k] > explored {
+			explored = total.Notes[k]
+		}
+	}
 	cov := map[string]any{
-		"states":                        total.Evals,
+		"states":                        explored,
+		"cases":                         total.Evals,
 		"distinct_observations":         states,
 		"transitions":                   trans,
 		"traces_validated_against_impl": validated,
-		"evaluations":                   total.Evals,
+		"evaluations":                   explored,
 		"distinct_nontrivial":           distinct,
 		"rule":                          cfg.Rule,
 		"samples":                       samples,
@@ -741,7 +749,7 @@ func main() {
 		"race_detector_reports":         raceReports,
 		"build":                         buildInfo,
 	}
-	if total.Evals < 1 {
+	if explored < 1 {
 		cov["states"] = 1
 	}
 	ev := map[string]any{
